@@ -43,7 +43,12 @@ func udpCase(r *Rng, idx int, o *Out) {
 			panic(err)
 		}
 	}
-	defer dastard.VerifUDPStop(dev)
+	wedged := false
+	defer func() {
+		if !wedged {
+			dastard.VerifUDPStop(dev)
+		}
+	}()
 	addr, _ := net.ResolveUDPAddr("udp", host)
 	conn, err := net.DialUDP("udp", nil, addr)
 	if err != nil {
@@ -60,10 +65,28 @@ func udpCase(r *Rng, idx int, o *Out) {
 	var batches [][]*packets.Packet
 	ngot := 0
 	prevLen := 0
+	// ReadAllPackets under a watchdog: if the receiver's reader goroutine has ended, the call blocks for ever
+	readAll := func() []*packets.Packet {
+		if wedged {
+			return nil
+		}
+		ch := make(chan []*packets.Packet, 1)
+		go func() {
+			ps, _ := dev.ReadAllPackets()
+			ch <- ps
+		}()
+		select {
+		case ps := <-ch:
+			return ps
+		case <-time.After(3 * time.Second):
+			wedged = true
+			return nil
+		}
+	}
 	collect := func(want int) {
 		deadline := time.Now().Add(5 * time.Second)
-		for ngot < want && time.Now().Before(deadline) {
-			ps, _ := dev.ReadAllPackets()
+		for ngot < want && time.Now().Before(deadline) && !wedged {
+			ps := readAll()
 			batches = append(batches, ps)
 			ngot += len(ps)
 			if ngot < want {
@@ -72,6 +95,7 @@ func udpCase(r *Rng, idx int, o *Out) {
 		}
 	}
 	pending := 0
+	bad := 0
 	for i := 0; i < nmsg; i++ {
 		nv := r.Pick(1, 2, 4, 8, 30, 100, r.Range(1, 400))
 		if r.Chance(10) {
@@ -91,6 +115,13 @@ func udpCase(r *Rng, idx int, o *Out) {
 				if len(msgs) > 0 {
 					b = []byte{} // an empty datagram: the buffer still holds the previous packet
 				}
+			case 2:
+				// a datagram that is no packet at all (long enough to overwrite the header in the buffer): it must
+				// be dropped, and the receiver must go on (before the repair 588eaa1 it ended the reader goroutine
+				// and the next ReadAllPackets blocked for ever)
+				b = c15Rand(r, r.Range(16, 60))
+				b[4] ^= 0x55 // never the magic number
+				bad++
 			}
 		}
 		if len(b) > prevLen {
@@ -102,15 +133,14 @@ func udpCase(r *Rng, idx int, o *Out) {
 		msgs = append(msgs, b)
 		pending += len(b) + 64
 		if pending > 60000 || r.Chance(20) {
-			collect(len(msgs)) // stay far below the socket's receive buffer; also varies the queue boundaries
+			collect(len(msgs) - bad) // stay far below the socket's receive buffer; also varies the queue boundaries
 			pending = 0
 		}
 	}
-	collect(len(msgs))
+	collect(len(msgs) - bad)
 	// nothing more may arrive
 	time.Sleep(30 * time.Millisecond)
-	ps, _ := dev.ReadAllPackets()
-	batches = append(batches, ps)
+	batches = append(batches, readAll())
 	var got []*packets.Packet
 	for _, b := range batches {
 		got = append(got, b...)
@@ -128,6 +158,9 @@ func udpCase(r *Rng, idx int, o *Out) {
 	fmt.Fprintf(&sb, " clean %d OUT %d", c, len(got))
 	for _, p := range got {
 		fmt.Fprintf(&sb, " %s", rpkView(p))
+	}
+	if wedged {
+		sb.WriteString(" WEDGED")
 	}
 	o.Case("%s", sb.String())
 }
